@@ -21,6 +21,7 @@ type Spec struct {
 	NoEmptyMap   bool
 	ListMin      int
 	StrMin       int
+	MapWidth     int // width of maps if > 0 (lists keep Width)
 }
 
 type Lazy struct {
@@ -165,8 +166,12 @@ func (x *Exec) forceMapSize(m *MapObj) {
 		lo = 1
 	}
 	n := lo
-	if lz.Spec.Width > lo {
-		n = lo + x.pick("mapsize", lz.Spec.Width-lo+1)
+	mw := lz.Spec.Width
+	if lz.Spec.MapWidth > 0 {
+		mw = lz.Spec.MapWidth
+	}
+	if mw > lo {
+		n = lo + x.pick("mapsize", mw-lo+1)
 	}
 	for i := 0; i < n; i++ {
 		k := x.symString(lz.Spec.KeyMin, lz.Spec.KeyMax, lz.Spec.KeyAlpha, "key")
